@@ -148,178 +148,221 @@ func vtC04Annotations(g int64, c vtC04Cfg, ngangs int64, withNameAndMin bool) ma
 	return a
 }
 
-func vtC04Exec(in []int64) []int64 {
+// vtC04Env is one instance of the code under test: a gang cache, a PodGroupManager on top of it
+// and the fake framework handle.
+type vtC04Env struct {
+	G, P    int64
+	podGang []int64
+	podKind []int64
+	acfg    []vtC04Cfg
+	h       *vtC04Handle
+	cache   *GangCache
+	mgr     *PodGroupManager
+	ctx     context.Context
+}
+
+// vtC04NewEnv decodes the static part of a case and returns the operations.
+func vtC04NewEnv(in []int64) (*vtC04Env, [][6]int64) {
 	pos := 0
 	next := func() int64 { v := in[pos]; pos++; return v }
-	G, P := next(), next()
-	podGang := make([]int64, P)
-	podKind := make([]int64, P)
-	for i := int64(0); i < P; i++ {
-		podGang[i], podKind[i] = next(), next()
+	e := &vtC04Env{}
+	e.G, e.P = next(), next()
+	e.podGang = make([]int64, e.P)
+	e.podKind = make([]int64, e.P)
+	for i := int64(0); i < e.P; i++ {
+		e.podGang[i], e.podKind[i] = next(), next()
 	}
-	acfg := make([]vtC04Cfg, G+1)
-	for g := int64(1); g <= G; g++ {
-		acfg[g] = vtC04Cfg{next(), next(), next(), next()}
+	e.acfg = make([]vtC04Cfg, e.G+1)
+	for g := int64(1); g <= e.G; g++ {
+		e.acfg[g] = vtC04Cfg{next(), next(), next(), next()}
 	}
 	N := next()
-
+	ops := make([][6]int64, N)
+	for i := range ops {
+		for j := 0; j < 6; j++ {
+			ops[i][j] = next()
+		}
+	}
 	args := &config.CoschedulingArgs{
 		DefaultTimeout:     metav1.Duration{Duration: 300 * time.Second},
 		DefaultMatchPolicy: extension.GangMatchPolicyOnceSatisfied,
 	}
-	h := &vtC04Handle{waiting: map[int]*vtC04WP{}, sched: &vtC04Sched{q: &vtC04Queue{}}}
-	cache := NewGangCache(args, nil, nil, nil, h)
-	mgr := &PodGroupManager{handle: h, args: args, cache: cache}
-	ctx := context.TODO()
+	e.h = &vtC04Handle{waiting: map[int]*vtC04WP{}, sched: &vtC04Sched{q: &vtC04Queue{}}}
+	e.cache = NewGangCache(args, nil, nil, nil, e.h)
+	e.mgr = &PodGroupManager{handle: e.h, args: args, cache: e.cache}
+	e.ctx = context.TODO()
+	return e, ops
+}
 
-	hasGang := func(p int64) bool { return p >= 0 && p < P && podGang[p] >= 1 && podGang[p] <= G }
-	mkPod := func(p int64, node bool, terminated bool) *corev1.Pod {
-		pod := &corev1.Pod{ObjectMeta: metav1.ObjectMeta{
-			Namespace: vtC04NS, Name: fmt.Sprintf("p%02d", p), UID: types.UID(fmt.Sprintf("p%02d", p)),
-			Labels: map[string]string{}, Annotations: map[string]string{}}}
-		if hasGang(p) {
-			g := podGang[p]
-			if podKind[p] == 1 {
-				pod.Labels[v1alpha1.PodGroupLabel] = fmt.Sprintf("g%02d", g)
-			} else {
-				pod.Annotations = vtC04Annotations(g, acfg[g], G, true)
-			}
-		}
-		if node {
-			pod.Spec.NodeName = "n1"
-		}
-		if terminated {
-			pod.Status.Phase = corev1.PodFailed
-		}
-		return pod
-	}
-	mkPG := func(g int64, c vtC04Cfg) *v1alpha1.PodGroup {
-		return &v1alpha1.PodGroup{
-			ObjectMeta: metav1.ObjectMeta{Namespace: vtC04NS, Name: fmt.Sprintf("g%02d", g),
-				Annotations: vtC04Annotations(g, c, G, false)},
-			Spec: v1alpha1.PodGroupSpec{MinMember: int32(c.min)},
-		}
-	}
-	setMask := func(m sets.Set[string]) int64 {
-		var r int64
-		for k := range m {
-			// key "ns/pNN"
-			i, err := strconv.Atoi(k[len(vtC04NS)+2:])
-			if err != nil {
-				panic("bad pod key " + k)
-			}
-			r |= 1 << uint(i)
-		}
-		return r
-	}
+func (e *vtC04Env) hasGang(p int64) bool {
+	return p >= 0 && p < e.P && e.podGang[p] >= 1 && e.podGang[p] <= e.G
+}
 
-	obs := make([]int64, 0, int(N)*(4+12*int(G)))
-	for i := int64(0); i < N; i++ {
-		code, a, b, c, d, e := next(), next(), next(), next(), next(), next()
-		h.allowed, h.rejected = 0, 0
-		res := int64(0)
-		validPod := a >= 0 && a < P
-		validGang := a >= 1 && a <= G
-		switch code {
-		case 1: // pod add event
-			if validPod {
-				cache.onPodAdd(mkPod(a, b != 0, false))
+func (e *vtC04Env) mkPod(p int64, node bool, terminated bool) *corev1.Pod {
+	pod := &corev1.Pod{ObjectMeta: metav1.ObjectMeta{
+		Namespace: vtC04NS, Name: fmt.Sprintf("p%02d", p), UID: types.UID(fmt.Sprintf("p%02d", p)),
+		Labels: map[string]string{}, Annotations: map[string]string{}}}
+	if e.hasGang(p) {
+		g := e.podGang[p]
+		if e.podKind[p] == 1 {
+			pod.Labels[v1alpha1.PodGroupLabel] = fmt.Sprintf("g%02d", g)
+		} else {
+			pod.Annotations = vtC04Annotations(g, e.acfg[g], e.G, true)
+		}
+	}
+	if node {
+		pod.Spec.NodeName = "n1"
+	}
+	if terminated {
+		pod.Status.Phase = corev1.PodFailed
+	}
+	return pod
+}
+
+func (e *vtC04Env) mkPG(g int64, c vtC04Cfg) *v1alpha1.PodGroup {
+	return &v1alpha1.PodGroup{
+		ObjectMeta: metav1.ObjectMeta{Namespace: vtC04NS, Name: fmt.Sprintf("g%02d", g),
+			Annotations: vtC04Annotations(g, c, e.G, false)},
+		Spec: v1alpha1.PodGroupSpec{MinMember: int32(c.min)},
+	}
+}
+
+// apply drives one operation through the real entry points and returns the Permit result code.
+func (e *vtC04Env) apply(op [6]int64) int64 {
+	code, a, b, c, d, f := op[0], op[1], op[2], op[3], op[4], op[5]
+	h, cache, mgr, ctx := e.h, e.cache, e.mgr, e.ctx
+	res := int64(0)
+	validPod := a >= 0 && a < e.P
+	validGang := a >= 1 && a <= e.G
+	switch code {
+	case 1: // pod add event
+		if validPod {
+			cache.onPodAdd(e.mkPod(a, b != 0, false))
+		}
+	case 2: // pod update event
+		if validPod {
+			cache.onPodUpdate(e.mkPod(a, false, false), e.mkPod(a, b != 0, c != 0))
+		}
+	case 3: // pod delete event
+		if validPod {
+			cache.onPodDelete(e.mkPod(a, b != 0, false))
+		}
+	case 4: // PodGroup add event
+		if validGang {
+			cache.onPodGroupAdd(e.mkPG(a, vtC04Cfg{b, c, d, f}))
+		}
+	case 5: // PodGroup update event
+		if validGang {
+			pg := e.mkPG(a, vtC04Cfg{b, c, d, f})
+			cache.onPodGroupUpdate(pg, pg)
+		}
+	case 6: // PodGroup delete event
+		if validGang {
+			cache.onPodGroupDelete(e.mkPG(a, vtC04Cfg{}))
+		}
+	case 7: // Permit, as Coscheduling.Permit (coscheduling.go) drives it; the framework parks a pod told to wait
+		if validPod {
+			pod := e.mkPod(a, false, false)
+			_, st := mgr.Permit(ctx, pod)
+			switch st {
+			case Success:
+				res = 0
+				mgr.AllowGangGroup(pod, h, Name)
+				mgr.SucceedGangScheduling()
+			case Wait:
+				res = 1
+				h.waiting[int(a)] = &vtC04WP{h: h, idx: int(a), pod: pod}
+			case PodGroupNotFound:
+				res = 2
+			case PodGroupNotSpecified:
+				res = 3
+			default:
+				res = 9
 			}
-		case 2: // pod update event
-			if validPod {
-				cache.onPodUpdate(mkPod(a, false, false), mkPod(a, b != 0, c != 0))
-			}
-		case 3: // pod delete event
-			if validPod {
-				cache.onPodDelete(mkPod(a, b != 0, false))
-			}
-		case 4: // PodGroup add event
-			if validGang {
-				cache.onPodGroupAdd(mkPG(a, vtC04Cfg{b, c, d, e}))
-			}
-		case 5: // PodGroup update event
-			if validGang {
-				pg := mkPG(a, vtC04Cfg{b, c, d, e})
-				cache.onPodGroupUpdate(pg, pg)
-			}
-		case 6: // PodGroup delete event
-			if validGang {
-				cache.onPodGroupDelete(mkPG(a, vtC04Cfg{}))
-			}
-		case 7: // Permit, as Coscheduling.Permit (coscheduling.go) drives it; the framework parks a pod told to wait
-			if validPod {
-				pod := mkPod(a, false, false)
-				_, st := mgr.Permit(ctx, pod)
-				switch st {
-				case Success:
-					res = 0
-					mgr.AllowGangGroup(pod, h, Name)
-					mgr.SucceedGangScheduling()
-				case Wait:
-					res = 1
-					h.waiting[int(a)] = &vtC04WP{h: h, idx: int(a), pod: pod}
-				case PodGroupNotFound:
-					res = 2
-				case PodGroupNotSpecified:
-					res = 3
-				default:
-					res = 9
+		}
+	case 8: // Unreserve (timeout, rejection or failed bind: the framework has taken the pod out of its waiting map)
+		if validPod {
+			delete(h.waiting, int(a))
+			mgr.Unreserve(ctx, framework.NewCycleState(), e.mkPod(a, false, false), "n1", h, Name)
+		}
+	case 9: // PostBind
+		if validPod {
+			mgr.PostBind(ctx, e.mkPod(a, false, false), "n1")
+		}
+	case 10: // AfterPostFilter (the pod of this scheduling cycle found no node)
+		if validPod {
+			mgr.AfterPostFilter(ctx, framework.NewCycleState(), e.mkPod(a, false, false), h, Name, nil, nil)
+		}
+	}
+	return res
+}
+
+func vtC04SetMask(m sets.Set[string]) int64 {
+	var r int64
+	for k := range m {
+		// key "ns/pNN"
+		i, err := strconv.Atoi(k[len(vtC04NS)+2:])
+		if err != nil {
+			panic("bad pod key " + k)
+		}
+		r |= 1 << uint(i)
+	}
+	return r
+}
+
+// observe projects GetGangSummaries() for gang 1..G (12 integers each).
+func (e *vtC04Env) observe(obs []int64) []int64 {
+	sums := e.mgr.GetGangSummaries()
+	for g := int64(1); g <= e.G; g++ {
+		s, ok := sums[vtC04GangID(g)]
+		if !ok {
+			obs = append(obs, 0, 0, 0, 0, 0, 0, 0, 0, 0, 0, 0, 0)
+			continue
+		}
+		var policy int64
+		switch s.GangMatchPolicy {
+		case extension.GangMatchPolicyOnlyWaiting:
+			policy = 0
+		case extension.GangMatchPolicyWaitingAndRunning:
+			policy = 1
+		case extension.GangMatchPolicyOnceSatisfied:
+			policy = 2
+		default:
+			policy = 9
+		}
+		var gm int64
+		for _, id := range s.GangGroup {
+			found := false
+			for j := int64(1); j <= e.G; j++ {
+				if id == vtC04GangID(j) {
+					gm |= 1 << uint(j-1)
+					found = true
 				}
 			}
-		case 8: // Unreserve (timeout, rejection or failed bind: the framework has taken the pod out of its waiting map)
-			if validPod {
-				delete(h.waiting, int(a))
-				mgr.Unreserve(ctx, framework.NewCycleState(), mkPod(a, false, false), "n1", h, Name)
-			}
-		case 9: // PostBind
-			if validPod {
-				mgr.PostBind(ctx, mkPod(a, false, false), "n1")
-			}
-		case 10: // AfterPostFilter (the pod of this scheduling cycle found no node)
-			if validPod {
-				mgr.AfterPostFilter(ctx, framework.NewCycleState(), mkPod(a, false, false), h, Name, nil, nil)
+			if !found {
+				gm |= 1 << 20
 			}
 		}
+		obs = append(obs, 1, vtB(s.HasGangInit), vtB(s.Mode == extension.GangModeStrict), policy,
+			int64(s.MinRequiredNumber), gm, vtB(s.GangFrom == GangFromPodGroupCrd), vtB(s.OnceResourceSatisfied),
+			vtC04SetMask(s.Children), vtC04SetMask(s.PendingChildren), vtC04SetMask(s.WaitingForBindChildren),
+			vtC04SetMask(s.BoundChildren))
+	}
+	return obs
+}
+
+func vtC04Exec(in []int64) []int64 {
+	e, ops := vtC04NewEnv(in)
+	obs := make([]int64, 0, len(ops)*(4+12*int(e.G)))
+	for _, op := range ops {
+		e.h.allowed, e.h.rejected = 0, 0
+		res := e.apply(op)
 		var fw int64
-		for k := range h.waiting {
+		for k := range e.h.waiting {
 			fw |= 1 << uint(k)
 		}
-		obs = append(obs, res, h.allowed, h.rejected, fw)
-		sums := mgr.GetGangSummaries()
-		for g := int64(1); g <= G; g++ {
-			s, ok := sums[vtC04GangID(g)]
-			if !ok {
-				obs = append(obs, 0, 0, 0, 0, 0, 0, 0, 0, 0, 0, 0, 0)
-				continue
-			}
-			var policy int64
-			switch s.GangMatchPolicy {
-			case extension.GangMatchPolicyOnlyWaiting:
-				policy = 0
-			case extension.GangMatchPolicyWaitingAndRunning:
-				policy = 1
-			case extension.GangMatchPolicyOnceSatisfied:
-				policy = 2
-			default:
-				policy = 9
-			}
-			var gm int64
-			for _, id := range s.GangGroup {
-				found := false
-				for j := int64(1); j <= G; j++ {
-					if id == vtC04GangID(j) {
-						gm |= 1 << uint(j-1)
-						found = true
-					}
-				}
-				if !found {
-					gm |= 1 << 20
-				}
-			}
-			obs = append(obs, 1, vtB(s.HasGangInit), vtB(s.Mode == extension.GangModeStrict), policy,
-				int64(s.MinRequiredNumber), gm, vtB(s.GangFrom == GangFromPodGroupCrd), vtB(s.OnceResourceSatisfied),
-				setMask(s.Children), setMask(s.PendingChildren), setMask(s.WaitingForBindChildren), setMask(s.BoundChildren))
-		}
+		obs = append(obs, res, e.h.allowed, e.h.rejected, fw)
+		obs = e.observe(obs)
 	}
 	return obs
 }
